@@ -16,5 +16,6 @@ CONSTANTS
   FixDeriveGuards = TRUE
   FixLateTrack = TRUE
   FixDeleteOnAccept = TRUE
+  FixStoreOnAccept = TRUE
 INVARIANTS NoPanic Listed BoundedBuf TypeOK
 PROPERTIES NewestMono
